@@ -81,4 +81,28 @@ def classify (r : Row) : Option Kind :=
       if writers.all (fun w => hostSetup.any (fun p => p.1 == loc && p.2 == w)) && !writers.isEmpty
       then some .setup else none
 
+/-! ### compute-and-store under a mutex: does the guarded region span the computation?
+
+Row = (mutex-guarded location, storing function, a call the stored value is computed from (through local
+variables, transitively), whether the mutex that guards the store is held during that call). -/
+def lazyCompute : List (String × String × String × Bool) := [
+  ("pkg/importcache.importCache.cache", "importCache.getOrAdd", "add", false),
+  ("rel.positionalRelationMetadata.indices", "positionalRelationMetadata.computeIndex", "fn", true),
+  ("rel.positionalRelationMetadata.indices", "positionalRelationMetadata.computeIndex", "prm.indices.Get", true),
+  ("rel.positionalRelationMetadata.indices", "positionalRelationMetadata.computeIndex", "prm.indices.With", true),
+  ("syntax.embeddedFileCache", "mustReadEmbeddedFile", "bindata.Open", true),
+  ("syntax.embeddedFileCache", "mustReadEmbeddedFile", "io.ReadAll", true),
+  ("syntax.stdOsStdin.bytes", "stdOsStdin.read", "io.ReadAll", true),
+  ("syntax.stdOsStdin.bytes", "stdOsStdin.read", "rel.NewBytes", true)
+]
+
+/-- stores whose value is computed with the lock released *on purpose*: the protocol first publishes an in-flight
+marker under the lock and makes later callers wait for it — proved separately (the GetOrAdd machine) -/
+def inflightProtocols : List (String × String) := [("pkg/importcache.importCache.cache", "importCache.getOrAdd")]
+
+/-- the lock that guards the store is held while the stored value is computed (the premise of `index_serial` and
+`stdin_serial`), or the function is one of the in-flight-marker protocols -/
+def computeOK (r : String × String × String × Bool) : Bool :=
+  r.2.2.2 || inflightProtocols.any (fun p => p.1 == r.1 && p.2 == r.2.1)
+
 end Arrai.C11.Expected
